@@ -35,6 +35,7 @@ type c09Msg struct {
 
 var c09Msgs = []c09Msg{
 	{App: 0, Code: 257, Short: "CE", OtherApp: 4, OtherCode: 280, OtherName: "DW"},
+	{App: 0, Code: 280, Short: "DW", OtherApp: 4, OtherCode: 257, OtherName: "CE"}, // a code that a private dictionary (below) gives another short name, in the same process
 	{App: 4, Code: 272, Short: "CC", OtherApp: 0, OtherCode: 258, OtherName: "RA"},
 	{App: 16777238, Code: 258, Short: "RA", OtherApp: 0, OtherCode: 272, OtherName: "CC"},      // Gx defines its own RA
 	{App: 16777251, Code: 258, Short: "RA", OtherApp: 16777238, OtherCode: 316, OtherName: "UL"}, // resolves only through the base dictionary
@@ -494,7 +495,7 @@ func runC09(ctx *ev.Ctx) {
 	}
 	ctx.Set("histories", hn)
 	ctx.Set("distinct_selected_handlers", len(outcomes)+1)
-	ctx.Rule = "histories: every sequence of <=5 (thorough 6) operations over {register one of the eight keys with a fresh handler, dispatch, dispatch during which the selected handler panics and the caller recovers as the serve loop does (at most once)} ending in a dispatch, replayed on one ServeMux with every dispatch compared with a reference model (map key -> latest handler; index, then name, then catch-all); AND the complete decision table: for 12 message keys (private commands with three- and six-letter short names whose first two letters are the 'other command' key, a private command without a short name, one whose short name is mixed-case, application 0xffffffff with command code 2^24-1, base CE, application CC, RA under Gx which redefines it, RA under S6a which resolves through the base dictionary, and three messages carrying a private dictionary whose base application defines a command the default dictionary lacks and names code 280 differently; plus three (application, code) pairs whose command exists only in an application that the AVP parent table - not command lookup - leads to: only the catch-all may see those) x request/answer (the other command flag bits P, E, T and the reserved bits rotate with the case: only R selects; every other message was read off a stream as a different command and had its header rewritten before dispatch): all 2^8 subsets of the registrations {index K, index with other application, other code, other R bit, name of K, name with the other suffix, name of another command, ALL - registered under the name \"ALL\" or under the index ALL_CMD_INDEX, a re-registration using the other spelling}, and every single re-registration of a present key with a second handler; each of these without, before and after a registration under the short name with the case of its letters swapped (no command's name: it must stay inert); the handler that fires and the number of error reports are compared with the reference decision (index, then name, then catch-all, else exactly one report)."
+	ctx.Rule = "histories: every sequence of <=5 (thorough 6) operations over {register one of the eight keys with a fresh handler, dispatch, dispatch during which the selected handler panics and the caller recovers as the serve loop does (at most once)} ending in a dispatch, replayed on one ServeMux with every dispatch compared with a reference model (map key -> latest handler; index, then name, then catch-all); AND the complete decision table: for 13 message keys (base DW - whose code a private dictionary used in the same process names differently, private commands with three- and six-letter short names whose first two letters are the 'other command' key, a private command without a short name, one whose short name is mixed-case, application 0xffffffff with command code 2^24-1, base CE, application CC, RA under Gx which redefines it, RA under S6a which resolves through the base dictionary, and three messages carrying a private dictionary whose base application defines a command the default dictionary lacks and names code 280 differently; plus three (application, code) pairs whose command exists only in an application that the AVP parent table - not command lookup - leads to: only the catch-all may see those) x request/answer (the other command flag bits P, E, T and the reserved bits rotate with the case: only R selects; every other message was read off a stream as a different command and had its header rewritten before dispatch): all 2^8 subsets of the registrations {index K, index with other application, other code, other R bit, name of K, name with the other suffix, name of another command, ALL - registered under the name \"ALL\" or under the index ALL_CMD_INDEX, a re-registration using the other spelling}, and every single re-registration of a present key with a second handler; each of these without, before and after a registration under the short name with the case of its letters swapped (no command's name: it must stay inert); the handler that fires and the number of error reports are compared with the reference decision (index, then name, then catch-all, else exactly one report)."
 	ctx.Assume = []string{"exact-index and name registrations are judged for commands the dictionary defines (incoming messages have passed ReadMessage); for undefined commands only the catch-all / error-report rows are judged"}
 }
 
